@@ -38,7 +38,8 @@ def is_field_of(e, fname):
 
 def lock_of_field(e, fname):
     """expression rooted in Mutex::lock(<...>.fname)"""
-    for c in root_calls(e):
+    from core import unclone
+    for c in root_calls(unclone(e)):
         if "Mutex::<R, T>::lock" in c[1] and c[2] and is_field_of(c[2][0], fname):
             return True
     return False
